@@ -551,6 +551,7 @@ def run(ctx):
         ctx.section(_samepath, ctx, index, graph, gen)
         ctx.section(_oneshot, ctx, index, graph, gen)
         ctx.section(_future, ctx, index)
+        ctx.section(_imports, ctx, index)
 
     ctx.section(_sec_dispatch)
 
@@ -735,7 +736,8 @@ def _future(ctx, index):
             p = f.mod.parents.get(n)
             call = None
             while p is not None and p is not f.node:
-                if isinstance(p, ast.Call) and norm(p.func) == "sorted":
+                # sorted(xs, key=...) and xs.sort(key=...) alike: the call whose `key=` keyword holds the comparison
+                if isinstance(p, ast.Call) and (norm(p.func) == "sorted" or (isinstance(p.func, ast.Attribute) and p.func.attr == "sort")):
                     call = p
                 p = f.mod.parents.get(p)
             if call is not None:
@@ -745,11 +747,117 @@ def _future(ctx, index):
                 ctx.ob(
                     "C19.future",
                     f,
-                    "sorted(..., key=<is __future__>, reverse={})".format(rev),
+                    "sort by key=<is __future__>, reverse={}".format(rev),
                     first,
                     "" if first else "the sort key sends `__future__` imports to the END of the import block",
                     line=call.lineno,
                 )
+
+
+def _imports(ctx, index):
+    """
+    C19.imports — with --emit-and-infer-imports gen_module concatenates the imports inferred per generated symbol.
+    (a) `infer_imports` answers None for a symbol that needs no import (its own `return X if X else None`): wherever
+        gen_module iterates over / splats its results they must pass a None filter first, otherwise one import-free
+        symbol in the mapping makes gen raise TypeError and write nothing;
+    (b) the rendered import statements are joined into source text: the separator must end a statement (contain a
+        newline or `;`), otherwise two statements from different modules land on one line and the module is not
+        parseable.
+    """
+    from ..core import RefGraph
+    from ..defuse import expand_aliases
+    from ..region import Region
+
+    gm = index.func("cdd.compound.gen_utils.gen_module")
+    inf = index.func("cdd.shared.ast_utils.infer_imports")
+    reg = Region(index, RefGraph(index), gm, allow_passed=True)
+
+    def none_alternative(e):
+        if e is None or (isinstance(e, ast.Constant) and e.value is None):
+            return True
+        if isinstance(e, ast.IfExp):
+            return none_alternative(e.body) or none_alternative(e.orelse)
+        if isinstance(e, ast.BoolOp):
+            return any(none_alternative(v) for v in e.values[-1:]) if isinstance(e.op, ast.Or) else any(none_alternative(v) for v in e.values)
+        return False
+
+    noneable = any(isinstance(r, ast.Return) and none_alternative(r.value) for r in iter_own(inf.node))
+    n_uses = 0
+    for g, n in reg.nodes():
+        if not (isinstance(n, (ast.Name, ast.Attribute)) and isinstance(getattr(n, "ctx", None), ast.Load) and index.resolve(g.mod, n, g) == inf.qual):
+            continue
+        par = g.mod.parents
+        p = par.get(n)
+        # the expression that yields the per-symbol results: map(infer_imports, X) / infer_imports(x) as a comprehension element
+        if isinstance(p, ast.Call) and norm(p.func) == "map" and p.args and p.args[0] is n:
+            results = p
+        elif isinstance(p, ast.Call) and p.func is n:
+            results = p
+            q = par.get(p)
+            if isinstance(q, (ast.ListComp, ast.GeneratorExp, ast.SetComp)) and q.elt is p:
+                if any(gen_.ifs for gen_ in q.generators):
+                    results = None  # filtered inside the comprehension: judged below as filtered
+                    n_uses += 1
+                    ctx.ob("C19.imports", g, "results of infer_imports pass a None filter before they are iterated", True, line=n.lineno)
+                    continue
+                results = q
+        else:
+            continue
+        n_uses += 1
+        filtered, child, up = False, results, par.get(results)
+        while up is not None and not isinstance(up, ast.stmt):
+            if isinstance(up, ast.Call) and norm(up.func) in ("filter", "filterfalse") and len(up.args) == 2 and up.args[1] is child:
+                pred = up.args[0]
+                filtered = (isinstance(pred, ast.Constant) and pred.value is None) or norm(pred) == "bool"
+                break
+            if isinstance(up, ast.BoolOp) and isinstance(up.op, ast.Or) and child is up.values[0]:
+                filtered = True
+                break
+            if isinstance(up, ast.Starred) or (isinstance(up, ast.Call) and norm(up.func).endswith(("chain", "from_iterable", "optimise_imports", "list", "tuple", "sorted"))):
+                child, up = up, par.get(up)
+                continue
+            if isinstance(up, ast.Call) and norm(up.func) == "map" and len(up.args) == 2 and up.args[1] is child:
+                break  # mapped on: each element is consumed unfiltered
+            break
+        ok = filtered or not noneable
+        ctx.ob(
+            "C19.imports",
+            g,
+            "results of infer_imports pass a None filter before they are iterated",
+            ok,
+            ""
+            if ok
+            else "infer_imports returns None for a symbol that needs no import, and `{}` is iterated / splatted without a "
+            "None filter: `gen --emit-and-infer-imports` raises TypeError (and writes nothing) as soon as one generated "
+            "symbol is import-free".format(short(results, 70)),
+            line=n.lineno,
+        )
+    ctx.count("infer_imports_result_uses_in_gen_module", n_uses)
+    # (b) separator of the joined import statements
+    n_join = 0
+    for g, n in reg.nodes():
+        if not (isinstance(n, ast.Call) and isinstance(n.func, ast.Attribute) and n.func.attr == "join" and isinstance(n.func.value, ast.Constant) and isinstance(n.func.value.value, str) and n.args):
+            continue
+        full = expand_aliases(g, n.args[0])
+        refs = {index.resolve(g.mod, x, g) for x in ast.walk(full) if isinstance(x, (ast.Name, ast.Attribute))}
+        if not (refs & {inf.qual, "cdd.shared.ast_utils.optimise_imports"}):
+            continue
+        n_join += 1
+        sep = n.func.value.value
+        ok = "\n" in sep or ";" in sep
+        ctx.ob(
+            "C19.imports",
+            g,
+            "inferred import statements are joined by a statement separator",
+            ok,
+            ""
+            if ok
+            else "the source of the inferred import statements is joined with {!r}: two statements (`from typing import ...` "
+            "and one from another module) end up on one line and the generated text does not parse".format(sep),
+            line=n.lineno,
+        )
+    ctx.count("joins_of_inferred_import_statements", n_join)
+    ctx.need(n_uses >= 1 and n_join >= 1, "the import-inference step vanished from gen_module (uses={}, joins={})".format(n_uses, n_join))
 
 
 def _symbol_name_params(index, tf):
